@@ -142,17 +142,69 @@ def errkind(e):
 # ------------------------------------------------------------------------------
 # command line / file parser (trusted; listed in the evidence)
 #
+# Node names.  The model identifies nodes by integers; the implementation sees
+# strings.  Per case a FAMILY of names gives an injective table id -> name, so
+# equality of ids is equality of names; the families contain names that are
+# prefixes of one another, short vs fully qualified names, and 'localhost' (0).
+#   A: n1 n2 .. n10 ..          (n1 is a prefix of n10..n19)
+#   B: node1 .. node60          (node1 / node10)
+#   C: nid0001 .. nid0030, and nid00011 .. (k > 30: name(k-30) + one digit: nid0001 / nid00011)
+#   D: node1 .. node30 (short) and node1.cluster.org .. (k > 30: FQDN of node k-30)
+FAMS = 'ABCD'
+_fam = ['A']
+
+
+def set_fam(f):
+    _fam[0] = f or 'A'
+
+
+def _name(f, i):
+    if i == 0:
+        return 'localhost'
+    if f == 'A':
+        return 'n%d' % i
+    if f == 'B':
+        return 'node%d' % i
+    if f == 'C':
+        return 'nid%04d' % i if i <= 30 else 'nid%04d%d' % (i - 30, i % 10)
+    if f == 'D':
+        return 'node%d' % i if i <= 30 else 'node%d.cluster.org' % (i - 30)
+    raise ValueError(f)
+
+
+_INV = {f: {_name(f, i): i for i in range(0, 100)} for f in FAMS}
+for _f in FAMS:
+    assert len(_INV[_f]) == 100, 'name table of family %s is not injective' % _f
+
+
 def hname(i):
-    return 'localhost' if i == 0 else 'n%d' % i
+    return _name(_fam[0], i)
+
+
+def ishost(s):
+    return s in _INV[_fam[0]]
 
 
 def hid(s):
-    if s == 'localhost':
-        return 0
-    m = re.fullmatch(r'n(\d+)', s)
-    if not m:
-        raise ValueError('not a host name: %r' % s)
-    return int(m.group(1))
+    if s not in _INV[_fam[0]]:
+        raise ValueError('not a host name of family %s: %r' % (_fam[0], s))
+    return _INV[_fam[0]][s]
+
+
+def hostlist(s):
+    return bool(s) and all(ishost(x) for x in s.split(','))
+
+
+def hostcounts(s):
+    return bool(s) and all(re.fullmatch(r'[^:]+:\d+', x) and ishost(x.split(':')[0]) for x in s.split(','))
+
+
+def partner(i):
+    """an id whose name is prefix-related to the name of i (same family)"""
+    f = _fam[0]
+    if f in 'AB':
+        return i // 10 if i >= 10 else i * 10 + (i % 5)
+    return i - 30 if i > 30 else i + 30
 
 
 FLAGS = {'-gpu': 'O_gpu', '--oversubscribe': 'O_oversub', '-K0': 'O_K0', '-K1': 'O_K1',
@@ -199,12 +251,12 @@ def parse_cmd(lm, cmd, sbox, uid):
             out.append(['OZ', INTS[name], int(val)])
         elif t == '-c' and nxt is not None and re.fullmatch(r'\d+(,\d+)*', nxt):
             out.append(['OL', 'O_c', [int(x) for x in nxt.split(',')]]); i += 1
-        elif lm == 'PRTE' and t == '--host' and nxt and re.fullmatch(r'(localhost|n\d+):\d+(,(localhost|n\d+):\d+)*', nxt):
+        elif lm == 'PRTE' and t == '--host' and nxt and hostcounts(nxt):
             out.append(['OHN', 'O_host', [[hid(x.split(':')[0]), int(x.split(':')[1])] for x in nxt.split(',')]])
             i += 1
-        elif t in HOSTS and nxt and re.fullmatch(r'(localhost|n\d+)(,(localhost|n\d+))*', nxt):
+        elif t in HOSTS and nxt and hostlist(nxt):
             out.append(['OH', HOSTS[t], [hid(x) for x in nxt.split(',')]]); i += 1
-        elif eq and name in HOSTS and re.fullmatch(r'(localhost|n\d+)(,(localhost|n\d+))*', val):
+        elif eq and name in HOSTS and hostlist(val):
             hs = [hid(x) for x in val.split(',')]
             if name == '--nodelist':
                 hs = sorted(hs)          # iteration order of a Python set
@@ -229,7 +281,7 @@ def parse_cmd(lm, cmd, sbox, uid):
             out.append(['OZ', 'O_msgsize', int(toks[i + 2])]); i += 2
         elif re.fullmatch(r'IBRUN_TASKS_PER_NODE=-?\d+', t):
             out.append(['OZ', 'O_tpn', int(val)])
-        elif re.fullmatch(r'(localhost|n\d+)(,(localhost|n\d+))*', t):
+        elif hostlist(t):
             out.append(['OH', 'O_pos', [hid(x) for x in t.split(',')]])
         else:
             out.append(['A', t])
@@ -250,17 +302,17 @@ def parse_file(path):
             raise ValueError('node file with %d lines' % len(lines))
         return ['FNodes', sorted(hid(x) for x in lines[0].split(','))]
     if ext == 'hf':
-        if all(re.fullmatch(r'(localhost|n\d+)', x) for x in lines):
+        if all(ishost(x) for x in lines):
             return ['FHosts', [hid(x) for x in lines]]
-        if all(re.fullmatch(r'(localhost|n\d+) slots=\d+', x) for x in lines):
+        if all(re.fullmatch(r'\S+ slots=\d+', x) and ishost(x.split(' ')[0]) for x in lines):
             return ['FHostN', False, [[hid(x.split(' ')[0]), int(x.split('=')[1])] for x in lines]]
-        if all(re.fullmatch(r'(localhost|n\d+):\d+', x) for x in lines):
+        if all(re.fullmatch(r'[^:\s]+:\d+', x) and ishost(x.split(':')[0]) for x in lines):
             return ['FHostN', True, [[hid(x.split(':')[0]), int(x.split(':')[1])] for x in lines]]
         raise ValueError('host file not understood: %r' % txt[:200])
     if ext == 'rf':
         out = []
         for x in lines:
-            m = re.fullmatch(r'rank (\d+)=(localhost|n\d+) slots=((\d+(,\d+)*)?)', x)
+            m = re.fullmatch(r'rank (\d+)=(\S+) slots=((\d+(,\d+)*)?)', x)
             if not m:
                 raise ValueError('rank file line not understood: %r' % x)
             out.append([int(m.group(1)), hid(m.group(2)), [int(c) for c in m.group(3).split(',') if c]])
@@ -294,13 +346,18 @@ class C09(Prop):
     clauses = ['count', 'nodes', 'pins', 'stateless', 'refuses', 'no_crash']
     corr_name = ('Launch.Model(can_launch/get_launch_cmds per method) vs LaunchMethod.create + init_from_scratch/'
                  'init_from_info + ResourceManager.find_launcher + AgentExecutingComponent._get_launch')
-    rule = ('corpus, then per launch method and flavour random histories of 1-4 tasks on one launcher object; '
+    rule = ('corpus, then launcher-selection cases (real find_launcher over launch orders, FORK mostly first, '
+            'placements on the agent node / localhost / a node with a prefix-related name / another node), and '
+            'per launch method and flavour random histories of 1-4 tasks on one launcher object; '
             'placements of 1..60 ranks over 1..50 nodes (block, scattered, single-node; arbitrary core index sets; '
             'around the 42 host / 42 node thresholds); non-trivial = a task with >= 2 ranks on >= 2 nodes with a '
-            'repeated node, or a refused task, or >= 2 tasks on one launcher object')
+            'repeated node, or a refused task, or >= 2 tasks on one launcher object, or a selection that passed over a '
+            'launcher / found none')
     trusted = [
         'command-line / file parser harness/c09.py:parse_cmd, parse_file (token table -> structured record; '
         'unknown tokens stay literals)',
+        'node-name tables harness/c09.py:_name (injective id -> name per family, asserted at import; families with '
+        'prefix-related, short/FQDN names and localhost): model node ids are equal iff the names are equal strings',
         'launcher CLI semantics: Launch.Model.den (Open MPI/Hydra -np/-host/-hostfile/"h slots=n"/"h:n"/rank file, '
         'SGI MPT "hosts -np n", PALS --ppn/--hostfile/--cpu-bind list:, srun --nodes/--ntasks/--nodelist/--nodefile, '
         'prun --np/--host h:n/--map-by node, jsrun ERF and -n/-a, aprun/ccmrun/ibrun -n, ssh/rsh host cmd, fork)',
@@ -367,9 +424,14 @@ class C09(Prop):
         cpr = rng.choice([1, 1, 1, 2, 4]) if lm != 'JSRUN' else rng.choice([1, 2, 4])
         ngpu = rng.choice([0, 0, 1, 2]) if lm in ('SRUN', 'JSRUN', 'MPIRUN') else 0
         slots = self._placement(rng, nranks, nnodes, cpr, ngpu)
-        if lm == 'FORK' and rng.random() < 0.8:
+        if lm == 'FORK':
+            r2 = rng.random()
             for s in slots:
-                s[0] = rng.choice([0, o['local']])
+                if r2 < 0.5:
+                    s[0] = rng.choice([0, o['local']])
+                elif r2 < 0.85:
+                    s[0] = partner(o['local'])       # a node whose name is prefix-related to the agent's
+                s[1] = s[0]
         t = dict(slots=slots, ranks=nranks, cpr=cpr, gpr=(ngpu if ngpu else rng.choice([0, 0, 1])),
                  mpi=(rng.random() < 0.7) if lm not in ('FORK', 'SSH', 'RSH') else (rng.random() < 0.15),
                  exe=rng.random() < 0.95, mem=rng.choice([0, 0, 0, 1024]), skipgpu=rng.random() < 0.1,
@@ -407,6 +469,8 @@ class C09(Prop):
             name = pool[k % len(pool)] if k < 4 * len(pool) else rng.choice(pool)
             lm = NAMES[name]
             o = {}
+            fam = rng.choice(FAMS)
+            set_fam(fam)
             if lm in ('MPIRUN', 'MPIEXEC'):
                 o['flavor'] = rng.choice(FLAVORS)
                 o['cheyenne'] = rng.random() < 0.12
@@ -441,7 +505,38 @@ class C09(Prop):
             big = rng.random() < (0.3 if lm in ('MPIRUN', 'SRUN') else 0.08)
             tasks = [self._task(rng, lm, oo, big=(big and j == nt - 1) or (big and rng.random() < 0.3))
                      for j in range(nt)]
-            yield {'name': name, 'o': o, 'tasks': tasks}
+            yield {'name': name, 'o': o, 'fam': fam, 'tasks': tasks}
+        # launcher selection: the real find_launcher over a launch order (FORK mostly first), node
+        # names that are equal / prefixes of one another / short vs fully qualified / localhost
+        orders = [['FORK', 'SSH'], ['FORK', 'MPIRUN'], ['FORK', 'RSH'], ['FORK', 'SRUN'], ['FORK', 'MPIEXEC'],
+                  ['FORK', 'PRTE'], ['SSH', 'FORK'], ['FORK', 'SSH', 'MPIRUN'], ['MPIRUN_MPT', 'FORK'],
+                  ['FORK'], ['RSH', 'SSH', 'FORK'], ['FORK', 'MPIEXEC_MPT']]
+        for k in range(220 if tier == 'quick' else 4000):
+            order = orders[k % len(orders)]
+            fam = FAMS[(k // len(orders)) % len(FAMS)]
+            set_fam(fam)
+            local = rng.randint(1, 50)
+            o = {'local': local}
+            if any(NAMES[x] == 'MPIEXEC' for x in order):
+                o['flavor'] = rng.choice(['OMPI', 'HYDRA', 'UNKNOWN'])
+                o['rf'] = rng.random() < 0.4
+                o['hf'] = rng.random() < 0.4
+            if 'SRUN' in order:
+                o['vmajor'] = rng.choice([18, 20])
+            tasks = []
+            for _ in range(rng.choice([1, 1, 2, 3])):
+                if rng.random() < 0.78:
+                    r2 = rng.random()
+                    node = (local if r2 < 0.25 else 0 if r2 < 0.35 else partner(local) if r2 < 0.75
+                            else rng.randint(1, 60))
+                    tasks.append(dict(slots=[[node, node, [rng.randint(0, 63)], []]], ranks=1, cpr=1,
+                                      mpi=rng.random() < 0.12, exe=rng.random() < 0.96))
+                else:
+                    nr = rng.randint(2, 6)
+                    pool_ = [local, partner(local), rng.randint(1, 60)]
+                    slots = [[n_, n_, [i], []] for i, n_ in enumerate(rng.choice(pool_) for _ in range(nr))]
+                    tasks.append(dict(slots=slots, ranks=nr, cpr=1, mpi=rng.random() < 0.7))
+            yield {'order': order, 'o': o, 'fam': fam, 'tasks': tasks}
         if tier == 'thorough':
             # small-scope exhaustive: all assignments of <= 4 ranks to 2 nodes for the node-naming methods
             import itertools
@@ -471,8 +566,19 @@ class C09(Prop):
         sub-class __init__, real init_from_scratch under tool mocks, real
         init_from_info); only the registry access of the base __init__ is
         replaced."""
+        insts = {}
+        order = case.get('order') or [case['name']]
+        for nm in order:
+            insts[nm] = self._make_one(nm, opts(case))
+        with mock.patch.object(self.RM, '__init__', return_value=None):
+            rm = self.RM(None, None, None, None)
+        rm._log = mock.MagicMock()
+        rm._launchers = insts
+        rm._launch_order = list(order)
+        return insts[order[0]], rm
+
+    def _make_one(self, name, o):
         ru, LM = self.ru, self.LM
-        name, o = case['name'], opts(case)
         lm = NAMES[name]
         chey = o['cheyenne'] and lm in ('MPIRUN', 'MPIEXEC')
         host = 'cheyenne1' if chey else hname(o['local'])
@@ -526,12 +632,7 @@ class C09(Prop):
                 inst = LM.create(name, lm_cfg, rm_info, log, None)
             else:                                            # unit-test style lower-case name
                 inst = MPIRun(name, lm_cfg, rm_info, log, None)
-        with mock.patch.object(self.RM, '__init__', return_value=None):
-            rm = self.RM(None, None, None, None)
-        rm._log = log
-        rm._launchers = {name: inst}
-        rm._launch_order = [name]
-        return inst, rm
+        return inst
 
     def _taskdict(self, case, t, uid, sbox):
         t = tsk(t)
@@ -554,13 +655,15 @@ class C09(Prop):
 
     def _launch(self, case, inst, rm, task, sbox):
         lm = NAMES[case['name']]
-        try:
-            launcher, _ = rm.find_launcher(task)
-            can = launcher is not None
-            if can and launcher is not inst:
-                raise RuntimeError('find_launcher returned a foreign object')
-        except Exception as e:
-            can = {'err': errkind(e)}
+        can = None
+        if rm is not None:
+            try:
+                launcher, _ = rm.find_launcher(task)
+                can = launcher is not None
+                if can and launcher is not inst:
+                    raise RuntimeError('find_launcher returned a foreign object')
+            except Exception as e:
+                can = {'err': errkind(e)}
         try:
             txt = self.AEC._get_launch(None, task, inst, 'EXEC')
         except Exception as e:
@@ -575,8 +678,38 @@ class C09(Prop):
         argv, f = parse_cmd(lm, cmds[0], sbox, task['uid'])
         return can, {'argv': argv, 'file': f}
 
+    def _select(self, case, rm, task, sbox):
+        """what the agent does: ResourceManager.find_launcher over the launch
+        order, then the selected launcher's command"""
+        order = case['order']
+        try:
+            launcher, lname = rm.find_launcher(task)
+        except Exception as e:
+            return {'sel': {'err': errkind(e)}, 'out': None}
+        if launcher is None:
+            return {'sel': None, 'out': None}
+        if lname not in order or rm._launchers[lname] is not launcher:
+            raise RuntimeError('find_launcher returned an unknown launcher %r' % lname)
+        _, out = self._launch(dict(case, name=lname), launcher, None, task, sbox)
+        return {'sel': order.index(lname), 'out': out}
+
     def run_impl(self, case):
         self.ncase += 1
+        set_fam(case.get('fam'))
+        if case.get('order'):
+            sbox = os.path.join(os.getcwd(), 'sbox_%d' % self.ncase)
+            shutil.rmtree(sbox, ignore_errors=True)
+            os.makedirs(sbox)
+            try:
+                out = []
+                for k, t in enumerate(case['tasks']):
+                    _, rm = self._make(case)
+                    # slots in the format of the launcher that will see them: new-style only
+                    task = self._taskdict(dict(case, name=case['order'][0]), t, 'task.%06d' % k, sbox)
+                    out.append(self._select(case, rm, task, sbox))
+                return {'calls': out}
+            finally:
+                shutil.rmtree(sbox, ignore_errors=True)
         sbox = os.path.join(os.getcwd(), 'sbox_%d' % self.ncase)
         shutil.rmtree(sbox, ignore_errors=True)
         os.makedirs(sbox)
@@ -597,15 +730,29 @@ class C09(Prop):
             shutil.rmtree(sbox, ignore_errors=True)
 
     # ------------------------------------------------------------------ coq
+    def _cfgs(self, case):
+        return L.lst([cfg_lit(dict(case, name=nm)) for nm in case['order']])
+
     def coq_row(self, case, obs):
+        if case.get('order'):
+            o = L.lst(['(%s, %s)' % (
+                '(inl %s)' % c['sel']['err'] if isinstance(c['sel'], dict) else
+                '(inr %s)' % L.opt(None if c['sel'] is None else L.nat(c['sel'])),
+                L.opt(None if c['out'] is None else outcome_lit(c['out']))) for c in obs['calls']])
+            return '(c09_select_row %s %s %s)' % (self._cfgs(case), L.lst([task_lit(t) for t in case['tasks']]), o)
         o = L.lst(['((%s, %s), %s)' % (can_lit(c['can']), outcome_lit(c['seq']), outcome_lit(c['fresh']))
                    for c in obs['calls']])
         return '(c09_row %s %s %s)' % (cfg_lit(case), L.lst([task_lit(t) for t in case['tasks']]), o)
 
     def model_show(self, case):
+        if case.get('order'):
+            return 'map (select_obs %s) %s' % (self._cfgs(case), L.lst([task_lit(t) for t in case['tasks']]))
         return 'run %s [] %s' % (cfg_lit(case), L.lst([task_lit(t) for t in case['tasks']]))
 
     def nontrivial(self, case, obs):
+        if case.get('order'):
+            # a selection that had to pass over at least one launcher, or found none
+            return any(c['sel'] is None or isinstance(c['sel'], dict) or c['sel'] > 0 for c in obs['calls'])
         if len(case['tasks']) >= 2:
             return True
         for t, c in zip(case['tasks'], obs['calls']):
@@ -639,10 +786,26 @@ class C09(Prop):
         return lm
 
     def signature(self, case, obs, clause):
+        if case.get('order'):
+            return '%s:find_launcher' % clause
         return '%s:%s' % (clause, self._cond(case, clause))
 
     def shrink(self, case):
+        if case.get('order'):
+            for c in self._shrink(case):
+                c = dict(c)
+                c.pop('name', None)
+                yield c
+        else:
+            yield from self._shrink(case)
+
+    def _shrink(self, case):
         ts = case['tasks']
+        if case.get('order') and len(case['order']) > 1:
+            for i in range(len(case['order'])):
+                yield dict(case, order=case['order'][:i] + case['order'][i + 1:])
+        if case.get('order'):
+            case = dict(case, name=case['order'][0])
         for i in range(len(ts)):
             if len(ts) > 1:
                 yield dict(case, tasks=ts[:i] + ts[i + 1:])
@@ -679,8 +842,15 @@ class C09(Prop):
 
     def distribution(self, results):
         names, ranks, nodes, errs, refused, big = {}, [], [], 0, 0, 0
+        sel = {'first': 0, 'later': 0, 'none': 0, 'raised': 0}
         for r in results:
-            names[r['case']['name']] = names.get(r['case']['name'], 0) + 1
+            nm = r['case'].get('name') or 'order:' + ','.join(r['case']['order'])
+            names[nm] = names.get(nm, 0) + 1
+            if r['case'].get('order'):
+                for c in (r['obs'] or {}).get('calls', []):
+                    k = ('raised' if isinstance(c['sel'], dict) else 'none' if c['sel'] is None
+                         else 'first' if c['sel'] == 0 else 'later')
+                    sel[k] += 1
             for t in r['case']['tasks']:
                 t = tsk(t)
                 hs = [s[0] for s in t['slots']] or [x[0] for x in t['rs']]
@@ -688,11 +858,13 @@ class C09(Prop):
                 nodes.append(len(set(hs)))
                 big += len(hs) > 42
             for c in (r['obs'] or {}).get('calls', []):
-                errs += 'err' in c['seq']
-                refused += c['can'] is not True
+                if 'seq' in c:
+                    errs += 'err' in c['seq']
+                    refused += c['can'] is not True
         return dict(instance_names=names, tasks=len(ranks), mean_ranks=round(sum(ranks) / max(1, len(ranks)), 2),
                     max_ranks=max(ranks or [0]), mean_nodes=round(sum(nodes) / max(1, len(nodes)), 2),
                     max_nodes=max(nodes or [0]), tasks_over_42_ranks=big, calls_raising=errs,
+                    find_launcher_selections=sel,
                     calls_refused_by_can_launch=refused)
 
 
